@@ -101,9 +101,7 @@ NOT_EXECUTED = ['several focal planes in tiled images',
                 'constructor refuses (signed / 32-64 bit integers, big-endian)',
                 'float32 / float64 parametric maps (cannot be read through the image interface at all: open '
                 'finding D35 of C19); parametric maps with several channels (4D pixel arrays); tiled parametric '
-                'maps with explicit plane_positions in another order / of a part of the tile grid next to a source '
-                'with a NON-ZERO Z offset (the constructor writes no ZOffsetInSlideCoordinateSystem into the origin '
-                'it computes itself - reported as a defect of the unchanged code, see claims note), or whose '
+                'maps with explicit plane_positions whose '
                 'listed tiles do not include the top left tile / do not form a rectangle (not modelled); encapsulated transfer syntaxes for '
                 'BINARY segmentations (not generated)']
 RULE = ('std_*: exhaustive small cube of (start, end, n, as_indices) in all argument forms; vol: 48 signed axis '
@@ -974,8 +972,6 @@ def _pm_tiled_case(rng, mode=None):
               'mode': mode, 'listed': listed, 'rd': rng.choice([None, _rd(rng), _rd(rng)]),
               'ts': rng.choice(['explicit', 'implicit', 'rle'])})
     if listed is not None and listed != forder:
-        # (the constructor writes no Z offset into the origin it computes itself: see NOT_EXECUTED)
-        c['srcz'] = rng.choice([None, '0'])
         # the declared matrix spans the listed tiles: draw the region inside it
         Re = (max(t // nc for t in listed) + 1) * c['th']
         Ce = (max(t % nc for t in listed) + 1) * c['tw']
